@@ -2,6 +2,7 @@
 Data file operations and readers/writers for the Python Iceberg implementation
 """
 
+import json
 import math
 import os
 import struct
@@ -341,7 +342,7 @@ class DataFileManager:
     def __init__(self, file_manager: "FileManager", storage: "StorageBackend"):
         self.file_manager = file_manager
         self.storage = storage
-        self._arrow_schema_cache: Dict[int, pa.Schema] = {}
+        self._arrow_schema_cache: Dict[Any, pa.Schema] = {}
         self._pyarrow_fs = self._get_arrow_filesystem()
 
     def _get_arrow_filesystem(self) -> Optional[Any]:
@@ -445,8 +446,13 @@ class DataFileManager:
 
     def create_arrow_schema(self, iceberg_schema: Schema) -> pa.Schema:
         """Convert Iceberg schema to PyArrow schema"""
-        if iceberg_schema.schema_id in self._arrow_schema_cache:
-            return self._arrow_schema_cache[iceberg_schema.schema_id]
+        # Keyed by the schema's CONTENT, not just its id: on tables without a
+        # persisted schema nothing ties a schema_id to one field list, and a
+        # stale hit converted the records with another schema's columns
+        # (every value silently written as NULL).
+        cache_key = (iceberg_schema.schema_id, json.dumps(iceberg_schema.fields, sort_keys=True, default=str))
+        if cache_key in self._arrow_schema_cache:
+            return self._arrow_schema_cache[cache_key]
 
         import pyarrow as pa
 
@@ -465,7 +471,7 @@ class DataFileManager:
             fields.append(pa.field(field_name, arrow_type, nullable=is_nullable))
 
         schema = pa.schema(fields)
-        self._arrow_schema_cache[iceberg_schema.schema_id] = schema
+        self._arrow_schema_cache[cache_key] = schema
         return schema
 
     def _iceberg_type_to_arrow(self, iceberg_type: Union[str, Dict[str, Any]]) -> pa.DataType:
